@@ -109,7 +109,8 @@ def checkBalance (t : Tx) (b : Fee) : Nat × Option Err :=
 /-- mem_pool.go:196 `tryAddSendersFee`. -/
 def tryAddSendersFee (mp : Pool) (t : Tx) (feer : Feer) (needCheck : Bool) : Pool × Bool :=
   let p := payerOf t
-  let (payerFee, ok) := getPayerFee p mp.fees feer
+  let payerFee := (getPayerFee p mp.fees feer).1
+  let ok := (getPayerFee p mp.fees feer).2
   let mp := if !ok then { mp with fees := upd mp.fees p (some payerFee) } else mp
   if needCheck then
     match checkBalance t payerFee with
@@ -192,14 +193,19 @@ def expectedFeeSum (p : Payer) : List Tx → Nat → Nat
   | [], s => s
   | c :: cs, s => expectedFeeSum p cs (if payerOf c = p then subW s c.fee else s)
 
+/-- mem_pool.go:601 `if conflictingHashes, ok := mp.conflicts[tx.Hash()]; ok { … }`. -/
+def scan1 (mp : Pool) (t : Tx) (author : Acct) : Scan :=
+  match mp.conflicts t.id with
+  | some hs => scanStep1 mp.vmap author hs { fee := 0, rm := [], panicked := false }
+  | none => { fee := 0, rm := [], panicked := false }
+
 /-- mem_pool.go:586 `checkTxConflicts`. -/
 def checkTxConflicts (mp : Pool) (t : Tx) (feer : Feer) : Pool × Except Err (List Tx) :=
-  let (p, isSponsored) := getPayer t
-  let author := if isSponsored then p.2 else p.1
-  let (actual, ok) := getPayerFee p mp.fees feer
-  let s1 : Scan := match mp.conflicts t.id with
-    | some hs => scanStep1 mp.vmap author hs { fee := 0, rm := [], panicked := false }
-    | none => { fee := 0, rm := [], panicked := false }
+  let p := payerOf t
+  let author := if (getPayer t).2 then p.2 else p.1
+  let actual := (getPayerFee p mp.fees feer).1
+  let ok := (getPayerFee p mp.fees feer).2
+  let s1 := scan1 mp t author
   if s1.panicked then ({ mp with panicked := true }, .error .cattr)
   else
   match scanStep2 mp.vmap t t.conflicts s1 with  -- (the `len(conflictsAttrs) != 0` guard only skips an empty loop)
@@ -257,6 +263,45 @@ def addConflictEntries (c : Nat → Option (List Nat)) (id : Nat) : List Nat →
   | [] => c
   | h :: hs => addConflictEntries (upd c h (some ((c h).getD [] ++ [id]))) id hs
 
+/-- mem_pool.go:251-261: an OracleResponse with the id of a pooled one replaces it only with a
+higher network fee; the flag is `false` for ErrOracleResponse. -/
+def oracleStage (mp : Pool) (t : Tx) : Pool × Bool :=
+  match t.oracle with
+  | none => (mp, true)
+  | some id =>
+    match mp.oracleResp id with
+    | none => (mp, true)
+    | some h =>
+      match mp.vmap h with
+      | none => ({ mp with panicked := true }, false)   -- nil *Transaction dereference
+      | some e => if e.netFee ≥ t.netFee then (mp, false) else (removeInternal mp h, true)
+
+/-- mem_pool.go:311-323: at capacity the last item is overwritten and unregistered, otherwise append. -/
+def placeLast (mp : Pool) (t : Tx) : Pool :=
+  if mp.txs.length = mp.capacity then
+    match mp.txs.getLast? with
+    | none => { mp with panicked := true }
+    | some unlucky => removeFromMap { mp with txs := mp.txs.dropLast ++ [t] } unlucky
+  else { mp with txs := mp.txs ++ [t] }
+
+/-- mem_pool.go:339-347: verifiedMap, oracleResp and conflicts entries of the inserted transaction. -/
+def register (mp : Pool) (t : Tx) : Pool :=
+  { mp with
+    vmap := upd mp.vmap t.id (some t)
+    oracleResp := match t.oracle with
+      | some id => upd mp.oracleResp id (some t.id)
+      | none => mp.oracleResp
+    conflicts := addConflictEntries mp.conflicts t.id t.conflicts }
+
+/-- mem_pool.go:273-349: insertion index, capacity check / eviction, shifting, bookkeeping. -/
+def insertStage (mp : Pool) (t : Tx) (feer : Feer) : Pool × Option Err :=
+  let n := insertIdx mp.txs t
+  if mp.txs.length = mp.capacity ∧ n = mp.txs.length then (mp, some .oom)
+  else
+    let mp1 := placeLast mp t
+    let mp2 := { mp1 with txs := shiftInsert mp1.txs n t }
+    ((tryAddSendersFee (register mp2 t) t feer false).1, none)
+
 /-- mem_pool.go:233 `Add`. -/
 def add (mp : Pool) (t : Tx) (feer : Feer) : Pool × Option Err :=
   if (mp.vmap t.id).isSome then (mp, some .dup)
@@ -264,38 +309,10 @@ def add (mp : Pool) (t : Tx) (feer : Feer) : Pool × Option Err :=
   match checkTxConflicts mp t feer with
   | (mp, .error e) => (mp, some e)
   | (mp, .ok toRemove) =>
-    -- l.251-261 oracle response replacement
-    let r : Pool × Bool := match t.oracle with
-      | none => (mp, true)
-      | some id =>
-        match mp.oracleResp id with
-        | none => (mp, true)
-        | some h =>
-          match mp.vmap h with
-          | none => ({ mp with panicked := true }, false)
-          | some e => if e.netFee ≥ t.netFee then (mp, false) else (removeInternal mp h, true)
+    let r := oracleStage mp t
     if r.1.panicked then (r.1, some .oracle)
     else if !r.2 then (r.1, some .oracle)
-    else
-    let mp := removeAll r.1 toRemove
-    let n := insertIdx mp.txs t
-    let len := mp.txs.length
-    if len = mp.capacity ∧ n = len then (mp, some .oom)
-    else
-    let mp : Pool :=
-      if len = mp.capacity then
-        match mp.txs.getLast? with
-        | none => { mp with panicked := true }
-        | some unlucky => removeFromMap { mp with txs := mp.txs.dropLast ++ [t] } unlucky
-      else { mp with txs := mp.txs ++ [t] }
-    let mp := { mp with txs := shiftInsert mp.txs n t }
-    let mp := { mp with
-      vmap := upd mp.vmap t.id (some t)
-      oracleResp := match t.oracle with
-        | some id => upd mp.oracleResp id (some t.id)
-        | none => mp.oracleResp
-      conflicts := addConflictEntries mp.conflicts t.id t.conflicts }
-    ((tryAddSendersFee mp t feer false).1, none)
+    else insertStage (removeAll r.1 toRemove) t feer
 
 /-- mem_pool.go:483 `loadPolicy`. -/
 def loadPolicy (mp : Pool) (feer : Feer) : Pool × Bool :=
@@ -329,10 +346,10 @@ def staleLoop (isOK : Tx → Bool) (feer : Feer) (policyChanged : Bool) : List T
 
 /-- mem_pool.go:433 `RemoveStale`. -/
 def removeStale (mp : Pool) (isOK : Tx → Bool) (feer : Feer) : Pool :=
-  let (mp, policyChanged) := loadPolicy mp feer
-  let mp := { mp with fees := fun _ => none, conflicts := fun _ => none }
-  let (mp', acc) := staleLoop isOK feer policyChanged mp.txs mp []
-  { mp' with txs := acc }
+  let lp := loadPolicy mp feer
+  let mp0 : Pool := { lp.1 with fees := fun _ => none, conflicts := fun _ => none }
+  let r := staleLoop isOK feer lp.2 mp0.txs mp0 []
+  { r.1 with txs := r.2 }
 
 /-- mem_pool.go:152 `HasConflicts`. -/
 def hasConflicts (mp : Pool) (t : Tx) : Bool :=
